@@ -284,13 +284,32 @@ class Check:
         return os.path.join(WORK, self.pid)
 
     # --- lean side
-    def lean(self, prop_modules, obl_modules=(), gen_fragments=()):
-        """extract, build, audit. Records obligations. Returns True when all discharged."""
+    def lean(self, prop_modules, obl_modules=(), gen_fragments=(), optional=()):
+        """extract, build, audit. Records obligations. Returns True when all discharged.
+
+        `optional` = [(fragment, obligation module, [fragments it depends on])]: control-flow fragments (third translator
+        generation) whose property is ALSO tied to the code by an exact (integer) correspondence.  When such a fragment parses,
+        its obligations count like any other (a failing one is a violation).  When the source has left the translated subset
+        (`unparsed`), its obligations cannot be stated; the check then relies on the correspondence alone, widened to the
+        thorough sizes (`self.escalate`), and says so in the evidence (DESIGN §10.9)."""
         st = run_extract()
         self.gen = st
         if '__error__' in st:
             self.violations.append({'kind': 'translator', 'what': 'translator crashed: ' + st['__error__'][-300:], 'replay': None})
         unparsed = [k for k in gen_fragments if st.get(k, {}).get('state') != 'ok']
+        obl_modules = list(obl_modules)
+        self.escalate = False
+        outside = {}
+        for frag, mod, deps in optional:
+            bad = [f for f in [frag] + list(deps) if st.get(f, {}).get('state') != 'ok']
+            if bad:
+                outside[frag] = '; '.join('%s: %s' % (f, st.get(f, {}).get('why', 'missing')) for f in bad)
+            else:
+                obl_modules.append(mod)
+        if outside:
+            self.escalate = True
+            self.extra_cov['translator_fragments_outside_subset'] = outside
+            self.notes.append('source left the translated subset for ' + ', '.join(sorted(outside)) + ': obligations of these fragments not stated on this run; correspondence widened to the thorough sizes')
         mods = list(prop_modules) + list(obl_modules)
         ok, text, failed = lake_build(mods + ['driver'])
         with open(os.path.join(self.wdir(), 'lake.log'), 'w') as f:
